@@ -134,7 +134,71 @@ def probe_fragments(inp: Dict[str, Any]) -> Dict[str, Any]:
             "deltas": deltas}
 
 
-PROBES = {"fragments": probe_fragments}
+def probe_fragments_batched(inp: Dict[str, Any]) -> Dict[str, Any]:
+    """the super-system and its two fragments evaluated in ONE zero-padded batch [AB, A, B] (rows of different heavy/hydrogen composition), restricted
+    and unrestricted: the interaction energy at large separation is that of the one-by-one evaluation, and tiny"""
+    a, b, method, R = inp["a"], inp["b"], inp["method"], inp.get("R", 30.0)
+    z, x, frag, (za_, xa), (zb_, xb) = _pair_geometry(a, b, R, inp.get("seed", 0))
+    n = len(z)
+    sp_ = np.zeros((3, n), dtype=np.int64)
+    xx = np.zeros((3, n, 3))
+    sp_[0], xx[0] = z, x
+    sp_[1, : len(za_)], xx[1, : len(za_)] = za_, xa
+    sp_[2, : len(zb_)], xx[2, : len(zb_)] = zb_, xb
+    bad, kinds = [], set()
+    for uhf in ([False, True] if inp.get("uhf", True) else [False]):
+        sp = esh.settings(method=method, eps=1e-10, converger=[1], uhf=uhf)
+        mult = np.ones(3) if uhf else None
+        rb_ = esh.run(sp_, xx, sp, mult=mult)
+        one = [float(_run(zz, xq, sp)["Etot"][0]) if not uhf else float(esh.run(np.array([zz]), np.array([xq]), sp, mult=np.ones(1))["Etot"][0]) for zz, xq in ((z, x), (za_, xa), (zb_, xb))]
+        d_batch = float(rb_["Etot"][0] - rb_["Etot"][1] - rb_["Etot"][2])
+        d_one = one[0] - one[1] - one[2]
+        env = (8.0 / R) ** 3
+        lab = "UHF" if uhf else "RHF"
+        if abs(d_batch) > 0.2 * env + 1e-8:
+            bad.append(f"{lab}: in the batch [AB, A, B] E_AB - E_A - E_B = {d_batch:.3e} eV at R = {R} A (one-by-one: {d_one:.3e})"); kinds.add("batched_energy")
+        for i_, lab2 in enumerate(("AB", a, b)):
+            if abs(float(rb_["Etot"][i_]) - one[i_]) > 1e-7:
+                bad.append(f"{lab}: E({lab2}) in the batch differs from the one-by-one value by {abs(float(rb_['Etot'][i_]) - one[i_]):.3e} eV"); kinds.add("batched_energy")
+    return {"ok": not bad, "observed": bad[:5], "expected": "additivity also when super-system and fragments share a batch", "predicate": "", "fields": {"kinds": sorted(kinds), "method": method, "a": a, "b": b}}
+
+
+def probe_cutoff_md(inp: Dict[str, Any]) -> Dict[str, Any]:
+    """finite cutoff along a trajectory: two fragments fly apart and cross the cutoff during the run; at the last step the engine's energy and forces must be
+    those of a fresh single point at the final geometry with the same cutoff (exactly the pairs beyond it ignored, at every step)"""
+    from . import c08
+
+    a, b, method = inp["a"], inp["b"], inp["method"]
+    cut, R0 = inp.get("cutoff", 10.0), inp.get("R0", 7.5)
+    z, x, frag, _, _ = _pair_geometry(a, b, R0, inp.get("seed", 0))
+    name = f"_c19_{a}_{b}"
+    esh.GEOMS[name] = (list(z), x.tolist())
+    # opposite velocities along the inter-fragment axis (zero net momentum and angular momentum about the axis)
+    ca, cb = x[frag == 0].mean(0), x[frag == 1].mean(0)
+    u = (cb - ca) / np.linalg.norm(cb - ca)
+    from seqm.seqm_functions.constants import Constants
+    mass = Constants().mass.numpy()[np.array(z)]
+    ma, mb = mass[frag == 0].sum(), mass[frag == 1].sum()
+    vrel = inp.get("vrel", 0.7)                     # A/fs: crosses the cutoff within the run
+    v = np.where((frag == 1)[:, None], u * vrel * ma / (ma + mb), -u * vrel * mb / (ma + mb))
+    steps = inp.get("steps", 14)
+    r = c08._md([name], 0.5, 0.0, 1, False, steps, velocities=[v], sp_over={"method": method, "pair_outer_cutoff": cut})
+    X = r["mols"][0]["coordinates"][-1]
+    sep = float(min(np.linalg.norm(p_ - q_) for p_ in X[frag == 0] for q_ in X[frag == 1]))
+    sep0 = float(min(np.linalg.norm(p_ - q_) for p_ in x[frag == 0] for q_ in x[frag == 1]))
+    fresh = esh.run(np.array([z]), np.array([X]), esh.settings(method=method, eps=1e-10, **{"pair_outer_cutoff": cut}))
+    bad = []
+    dE = abs(float(r["mols"][0]["data"][-1, 2]) - float(fresh["Etot"][0]))
+    dF = float(np.abs(r["mols"][0]["forces"][-1] - fresh["force"][0]).max())
+    if dE > 1e-6:
+        bad.append(f"after {steps} steps (closest inter-fragment distance {sep0:.2f} -> {sep:.2f} A, cutoff {cut} A) the engine's potential energy differs from a fresh single point at the same geometry by {dE:.3e} eV")
+    if dF > 1e-5:
+        bad.append(f"... and its forces by {dF:.3e} eV/A")
+    return {"ok": not bad, "observed": bad or [f"distance {sep0:.2f} -> {sep:.2f} A across the cutoff {cut} A; dE {dE:.1e}"], "expected": "pair list follows the geometry", "predicate": "",
+            "fields": {"kinds": ["cutoff_md"] if bad else [], "method": method, "a": a, "b": b}, "nontrivial": sep0 < cut < sep}
+
+
+PROBES = {"fragments": probe_fragments, "fragments_batched": probe_fragments_batched, "cutoff_md": probe_cutoff_md}
 
 
 def gen_cases(ctx: Ctx):
@@ -149,11 +213,34 @@ def gen_cases(ctx: Ctx):
     return cases
 
 
+def _dispatch(item):
+    return PROBES[item[0]](item[1])
+
+
+def gen_extra(ctx: Ctx):
+    rng = ctx.rng
+    pool = ["h2o", "nh3", "ch4", "hf", "hcn", "ch2o", "co", "hcl"]
+    out = []
+    for i in range(5 if ctx.thorough else 2):
+        a, b = [("nh3", "h2o"), ("ch4", "hf")][ctx.seed % 2] if i == 0 else [str(v) for v in rng.choice(pool, size=2, replace=False)]
+        out.append(("fragments_batched", {"a": a, "b": b, "method": ["AM1", "PM3", "MNDO"][(i + ctx.seed) % 3], "R": float(rng.choice([25.0, 30.0, 60.0])), "seed": int(rng.integers(0, 10**6))}))
+    for i in range(3 if ctx.thorough else 1):
+        a, b = [("h2o", "h2o"), ("hf", "h2o"), ("nh3", "co")][(i + ctx.seed) % 3]
+        out.append(("cutoff_md", {"a": a, "b": b, "method": ["AM1", "PM3"][(i + ctx.seed) % 2], "cutoff": float(rng.choice([9.0, 10.0])), "R0": 7.5, "seed": int(rng.integers(0, 10**6))}))
+    return out
+
+
 def run(ctx: Ctx):
     leanproj.check_theorems(ctx, MODULE, THEOREMS)
     from .registry import THEOREMS_C19B
     leanproj.check_theorems(ctx, "PyseqmVerif.Properties.C19b", THEOREMS_C19B)
     cases = gen_cases(ctx)
+    extra = gen_extra(ctx)
+    for (nm, c), r in zip(extra, mdh.pmap(_dispatch, extra, timeout=1800)):
+        if isinstance(r, Exception) or r is None:
+            ctx.obligation(f"probe {nm} evaluated", False, repr(r)[-1500:], kind="harness")
+            continue
+        ctx.probe_case(nm, c, r["ok"], fields=r["fields"], observed=r["observed"], expected=r["expected"], predicate=r["predicate"], stratum=nm, nontrivial=r.get("nontrivial", True))
     results = mdh.pmap(probe_fragments, cases, timeout=1800)
     for c, r in zip(cases, results):
         if isinstance(r, Exception) or r is None:
